@@ -718,11 +718,16 @@ func c10r11(c *Ctx, r *Report) {
 					if !ok || (b.Op != token.EQL && b.Op != token.NEQ) {
 						return false
 					}
-					cst, ok := b.Y.(*ssa.Const)
+					// `x == nil` or `nil == x`
+					x, y := b.X, b.Y
+					if cx, isC := x.(*ssa.Const); isC && cx.IsNil() {
+						x, y = y, x
+					}
+					cst, ok := y.(*ssa.Const)
 					if !ok || !cst.IsNil() {
 						return false
 					}
-					nm, who := fieldOfReq(b.X)
+					nm, who := fieldOfReq(x)
 					return nm == fld.Name() && who == recv && (b.Op == token.EQL) == val
 				})
 			})
